@@ -4,7 +4,7 @@ PID = "C06"
 
 
 def run(tier, seed):
-    return exec_common.run_exec(PID, tier, seed, 3, scns=("exec", "migrate", "xjoin"), pre=exec_common.sched_stop_model)
+    return exec_common.run_exec(PID, tier, seed, 3, scns=("exec", "migrate", "xjoin", "stacked"), pre=exec_common.sched_stop_model)
 
 
 def replay(path):
